@@ -348,6 +348,12 @@ pub fn cmd_replay(args: &Args) -> i32 {
         }
     };
     let doc: serde_json::Value = serde_json::from_str(&text).unwrap();
+    if doc["workload"].as_str() == Some("fuzz") {
+        return crate::wire::replay_fuzz(&doc);
+    }
+    if doc["workload"].as_str() == Some("roundtrip") {
+        return crate::wire::replay_roundtrip(&doc);
+    }
     if doc["workload"].as_str() == Some("undo") {
         return crate::undo::replay_undo(&doc, args.has("full"));
     }
